@@ -34,4 +34,5 @@ def main():
 
 
 if __name__ == "__main__":
-    sys.exit(main())
+    from vf.extract import tables as _t  # registry lives in the imported module
+    sys.exit(_t.main())
